@@ -10,14 +10,24 @@
    length plus one.  Because resuming the decoder after exhausted input equals one call on
    the concatenation (C03_segmentation_independent), the cut points of the wire do not matter.
 
-   What is NOT modelled (partial, see level_note): the ring-window mechanics of mpt_queue_push
-   (encoder windows over a wrapped ring, out-of-band scratch copy, re-alignment) and of
-   mpt_queue_recv / mpt_queue_shift (prefix space after MissingBuffer, cropping).  They are
+   Ring level, writer side (QueueCodec.v [equeue_push] = mpt_queue_push over a wrapped ring with
+   encoder windows and re-alignment, [wire_writer] = the transport taking finished bytes off the
+   front): every history of pushes, terminations and transport steps on a ring of any capacity
+   and offset keeps the stream-level encoder invariant, so that transport bytes followed by
+   ring contents are exactly the frames of the completed messages
+   ([C02_queue_push_refines_partial], [C02_ring_writer_stream_partial]).  PARTIAL: the
+   out-of-band branch of mpt_queue_push (open block straddling the storage end, copied to a
+   stack buffer) is excluded by the guard [wh_guard]/[no_oob]; it is modelled and compared
+   with the implementation, not proved.
+
+   What is modelled and compared but NOT proved: that out-of-band branch, and the ring mechanics
+   of mpt_queue_recv / mpt_queue_shift (prefix space after MissingBuffer, cropping).  They are
    decided against the specification [sspec_run] — received = sent, in order, nothing lost,
    duplicated or merged, and everything arrives after a drain — by the correspondence run on
    rings of many capacities and offsets with arbitrary cuts of the wire. *)
 From MptV Require Import Base.Mem Cobs.CobsModel Cobs.DecModel Cobs.EncProofs Cobs.EncTheorems
-  Cobs.DecProofs Cobs.DecComplete Cobs.StreamSpec Cobs.StreamProofs.
+  Cobs.DecProofs Cobs.DecComplete Cobs.StreamSpec Cobs.StreamProofs
+  C13.QueueModel Cobs.QueueCodec Cobs.QueuePushProofs Cobs.QueuePushTheorem Cobs.WriterHistory.
 
 Theorem C02_wire_splits_into_frames :
   forall v ms wire, frames_of v ms wire ->
@@ -37,6 +47,47 @@ Theorem C02_stream_integrity_flat :
               (map fst msgs) bodies.
 Proof. exact stream_integrity. Qed.
 
+(* one mpt_queue_push on a ring in any state that meets the invariant: the result meets it again
+   (with the consumed bytes added, or the message closed).  Full statement: the same without
+   the [no_oob] hypothesis. *)
+Theorem C02_queue_push_refines_partial :
+  forall v e sent pre consumed arg,
+    variant_ok v -> rinv v pre consumed sent e -> no_oob e -> qoff (eq_q e) < qmax (eq_q e) ->
+    push_ok v pre consumed sent (norm_arg arg) (equeue_push v e arg).
+Proof. exact equeue_push_refines_partial. Qed.
+
+Theorem C02_ring_writer_invariant_partial :
+  forall v, variant_ok v -> forall ops s s', wh_inv v s -> wh_run v s ops = Some s' -> wh_inv v s'.
+Proof. exact wh_run_inv. Qed.
+
+(* writer histories on a ring of any size and offset: between messages, transport bytes + ring
+   contents are cut by their delimiters into one frame body per completed message, in order, and
+   the decoder loop delivers message i from body i *)
+Theorem C02_ring_writer_stream_partial :
+  forall v buf off ops s, variant_ok v -> off <= length buf ->
+    wh_run v (wh_init buf off) ops = Some s ->
+    wh_cur s = [] -> escr (eq_st (wh_e s)) = 0 ->
+    exists bodies, split_frames [] (wh_sent s ++ contents (eq_q (wh_e s))) = (bodies, []) /\
+      bodies_of v (wh_done s) bodies /\
+      Forall2 (fun m body => forall c0 rest tl proc cons,
+                 body = c0 :: rest -> length body + 1 <= proc ->
+                 delivers v (dec_loop v false (rest ++ 0%N :: tl) (bn c0) 0 proc [] cons) m)
+              (wh_done s) bodies.
+Proof. exact writer_history_delivered. Qed.
+
+(* non-vacuity: a history on a 12-byte ring starting at offset 7 (windows wrap, the ring is
+   re-aligned, the transport takes bytes in between) runs to the end under the guard *)
+Example C02_ring_writer_example :
+  let ops := [WData [1;2;0;3]%N; WTerm; WWire 3; WData [4;5;6;7;8]%N; WData [9]%N; WWire 100;
+              WData [10;11;0;0;12]%N; WTerm] in
+  match wh_run v_zpe_r (wh_init (repeat 238%N 12) 7) ops with
+  | Some s => wh_cur s = [] /\ escr (eq_st (wh_e s)) = 0 /\
+              wh_done s = [[1;2;0;3]; [4;5;6;7;8;9;10;11;0;0;12]]%N /\
+              wh_sent s ++ contents (eq_q (wh_e s)) = [3;1;2;3;0; 232;4;5;6;7;8;9;10;11;12;0]%N
+  | None => False
+  end.
+Proof. vm_compute. auto. Qed.
+
 (* the specification the implementation is compared with: the list of completely sent messages *)
 Example C02_spec_example :
   sspec_run (mkss [] [] false) [SSend [1]%N; SPart [2]%N; SWire 1; SRecv; SFin; SDrain]
@@ -52,3 +103,6 @@ Proof. vm_compute. auto. Qed.
 
 Print Assumptions C02_wire_splits_into_frames.
 Print Assumptions C02_stream_integrity_flat.
+Print Assumptions C02_queue_push_refines_partial.
+Print Assumptions C02_ring_writer_invariant_partial.
+Print Assumptions C02_ring_writer_stream_partial.
